@@ -138,6 +138,14 @@ Proof.
 Qed.
 Print Assumptions C18_tsv_fields.
 
+(* clauses 24 + 25 evaluated on phylib's observed rows say: every observed row is a dictionary with
+   distinct keys that agrees with the written row on EVERY field name (absent / None / excluded
+   omitted, values matching the expected cell), the requested first column first *)
+Theorem C18_tsv_checker_sound : forall first excl n rows out,
+  rows_spec_b excl n rows out = true -> first_b first out = true -> Forall2 (Row_Obs first excl n) rows out.
+Proof. exact rows_checker_sound. Qed.
+Print Assumptions C18_tsv_checker_sound.
+
 (* two-column cluster tables with arbitrary (also negative) distinct ids and int / float /
    non-numeric string values: field name, ids and values read back (floats exactly: repr) *)
 Theorem C18_tsv_simple : forall (T : Type) (V : csvlayer T), Csv_OK V ->
